@@ -239,8 +239,15 @@ def check_direct(case, ctx):
                          + fy * ((1 - fx) * bkg[j1, i0] + fx * bkg[j1, i1]))
                 _cmp('background_centroid', g('background_centroid'),
                      float(exp_b), 1e-8, 1e-8)
-            amb = sh['flags'] & {'det_sign_ambiguous', 'regularisation_threshold'}
-            if amb:
+            amb = sh['flags'] & {'det_sign_ambiguous', 'regularisation_threshold',
+                                 'overflow'}
+            if amb == {'det_sign_ambiguous'} \
+                    and 'nonnegative_weights' in sh['flags']:
+                # collinear pixels with non-negative weights: the determinant
+                # is zero by definition, whatever sign rounding gives it, and
+                # the source is a regularised thin source (never NaN)
+                ctx.event('thin_source_zero_det')
+            elif amb:
                 ctx.event('shape_ambiguous')
                 continue
             if 'regularised' in sh['flags']:
